@@ -173,3 +173,50 @@ Fixpoint display_labels (n : name) : list N :=
 
 Definition display_name (n : name) : list N :=
   match n with [] => [sym_dot] | _ => display_labels n end.
+
+(* ---- builder.rs parse_escape (the backslash has been consumed) and
+   label.rs OwnedLabel::from_chars: one label from a whole character sequence.
+   `ch as u8` keeps the low eight bits of the character. *)
+Definition parse_escape (cs : list N) (in_lbl : bool) : outcome (N * list N) :=
+  match cs with
+  | [] => Err T_ShortInput
+  | c1 :: r1 =>
+      if is_digit c1 then
+        match r1 with
+        | [] => Err T_ShortInput
+        | c2 :: r2 =>
+            if negb (is_digit c2) then Err T_BadEscape else
+            match r2 with
+            | [] => Err T_ShortInput
+            | c3 :: r3 =>
+                if negb (is_digit c3) then Err T_BadEscape else
+                let v := (c1 - 48) * 100 + (c2 - 48) * 10 + (c3 - 48) in
+                if escape_dec_max <? v then Err T_BadEscape else Ok (v, r3)
+            end
+        end
+      else if c1 =? sym_bracket then (if in_lbl then Ok (sym_bracket, r1) else Err T_BinaryLabel)
+      else Ok (c1 mod 256, r1)
+  end.
+
+Definition in_ranges (c : N) (rs : list (N * N)) : bool :=
+  existsb (fun p => (fst p <=? c) && (c <=? snd p)) rs.
+
+Fixpoint owned_loop (fuel : nat) (cs : list N) (acc : bytes) : outcome bytes :=
+  match fuel with
+  | O => OutOfFuel
+  | S f =>
+      match cs with
+      | [] => Ok acc
+      | ch :: r =>
+          if exceeds olabel_full_ge (length acc) olabel_full_lim then Err E_LongLabel else
+          if in_ranges ch olabel_plain_ranges then owned_loop f r (acc ++ [ch])
+          else if ch =? backslash then
+            match parse_escape r (0 <? length acc)%nat with
+            | Ok (b, r') => owned_loop f r' (acc ++ [b])
+            | Err e => Err e | Panic p => Panic p | OutOfFuel => OutOfFuel
+            end
+          else Err T_NonAscii
+      end
+  end.
+
+Definition owned_label_from_chars (cs : list N) : outcome bytes := owned_loop (S (length cs)) cs [].
